@@ -15,37 +15,40 @@ KERNEL_SAMPLE = 12
 
 _LAYER = ("forall (hstate : Type) (compute : hstate -> request -> bool -> fat * hstate * list bytes) ")
 _ANSWER_ARGS = ("hstate compute cache_on ims_on parse_ims sanitize_ok prime negotiate vary_tuple vary_header "
-                "checked error_page pkg alt sanitize encode hversion")
+                "checked error_page vary_rules pkg alt sanitize encode hversion")
 _RUN = ("run_streams hstate compute true ims_on parse_ims sanitize_ok prime negotiate vary_tuple vary_header "
         "((c, hs), open_streams reqs) now dt sched")
+_SEND = "forall (checked : bool) (error_page : N -> resp) (vn : list bytes) (pkg : N -> headers -> headers)"
+_WIT = "send_pipe false (fun _ => r) [] (fun _ h => h)"
 THEOREMS = [
     ("send_parity",
-     "forall (checked : bool) (error_page : N -> resp) (pkg : N -> headers -> headers), pkg_oblivious pkg -> "
+     _SEND + ", pkg_oblivious pkg -> "
      "forall (secure1 : bool) (alt : option bytes) (m : N) (sd : outcome (option (N * N))) (r : resp), "
-     "onorm (send checked error_page pkg H1 secure1 alt m sd r) = onorm (send checked error_page pkg H2 true alt m sd r)"),
+     "onorm (send checked error_page vn pkg H1 secure1 alt m sd r) = onorm (send checked error_page vn pkg H2 true alt m sd r)"),
     ("protocol_parity",
      _LAYER + "(cache_on ims_on : bool) (parse_ims : bytes -> option Z) (sanitize_ok : request -> bool) (prime : request -> request) "
      "(negotiate : request -> fat -> option (N * bytes)) (vary_tuple : request -> tuple) "
      "(vary_header : request -> fat -> list (bytes * bytes)) (checked : bool) (error_page : N -> resp) "
+     "(vary_rules : request -> list bytes) "
      "(pkg : N -> headers -> headers) (alt : option bytes) (sanitize : request -> outcome (option (N * N))) "
      "(encode : request -> N -> headers -> bytes -> headers * bytes) (hversion : N), pkg_oblivious pkg -> "
      "forall (secure1 : bool) (st : state hstate) (now : N) (r0 : request), "
      "onorm (answer " + _ANSWER_ARGS + " H1 secure1 st now r0) = onorm (answer " + _ANSWER_ARGS + " H2 true st now r0)"),
     ("head_is_get_without_body",
-     "forall (checked : bool) (error_page : N -> resp) (pkg : N -> headers -> headers) (p : proto) (secure : bool) "
+     _SEND + " (p : proto) (secure : bool) "
      "(alt : option bytes) (sd : outcome (option (N * N))) (r : resp), "
-     "send checked error_page pkg p secure alt M_HEAD sd r = odrop (send checked error_page pkg p secure alt M_GET sd r)"),
+     "send checked error_page vn pkg p secure alt M_HEAD sd r = odrop (send checked error_page vn pkg p secure alt M_GET sd r)"),
     ("head_parity",
-     "forall (checked : bool) (error_page : N -> resp) (pkg : N -> headers -> headers), pkg_oblivious pkg -> "
+     _SEND + ", pkg_oblivious pkg -> "
      "forall (secure1 : bool) (alt : option bytes) (sd : outcome (option (N * N))) (r : resp), "
-     "onorm (send checked error_page pkg H1 secure1 alt M_HEAD sd r) = odrop (onorm (send checked error_page pkg H2 true alt M_GET sd r)) /\\ "
-     "onorm (send checked error_page pkg H2 true alt M_HEAD sd r) = odrop (onorm (send checked error_page pkg H2 true alt M_GET sd r))"),
+     "onorm (send checked error_page vn pkg H1 secure1 alt M_HEAD sd r) = odrop (onorm (send checked error_page vn pkg H2 true alt M_GET sd r)) /\\ "
+     "onorm (send checked error_page vn pkg H2 true alt M_HEAD sd r) = odrop (onorm (send checked error_page vn pkg H2 true alt M_GET sd r))"),
     ("pkg_menu_is_oblivious",
      "forall ops : list pkg_op, Forall (fun o => hop (pkg_op_name o) = false) ops -> pkg_oblivious (pkg_menu ops)"),
     ("h2_never_refuses",
-     "forall (checked : bool) (error_page : N -> resp) (pkg : N -> headers -> headers) (p : proto) (secure : bool) "
+     _SEND + " (p : proto) (secure : bool) "
      "(alt : option bytes) (m : N) (sd : outcome (option (N * N))) (r : resp), "
-     "send checked error_page pkg p secure alt m sd r <> Ok WRefused"),
+     "send checked error_page vn pkg p secure alt m sd r <> Ok WRefused"),
     ("stream_independence",
      _LAYER + "(ims_on : bool) (parse_ims : bytes -> option Z) (sanitize_ok : request -> bool) (prime : request -> request) "
      "(negotiate : request -> fat -> option (N * bytes)) (vary_tuple : request -> tuple) "
@@ -55,15 +58,16 @@ THEOREMS = [
      "rq_path r = rq_path r' -> (qm (cf r true) = true -> path_query r = path_query r') -> cf r true = cf r' true) -> "
      "(forall r r', rq_path r = rq_path r' -> qm (cf r true) = qm (cf r' true)) -> "
      "(forall r, f_spref (cf r false) = SP_NONE) -> "
-     "forall (reqs : list (N * request)) (checked : bool) (error_page : N -> resp) (pkg : N -> headers -> headers) "
+     "forall (reqs : list (N * request)) (checked : bool) (error_page : N -> resp) (vary_rules : request -> list bytes) "
+     "(pkg : N -> headers -> headers) "
      "(alt : option bytes) (sanitize : request -> outcome (option (N * N))) "
      "(encode : request -> N -> headers -> bytes -> headers * bytes) (hversion : N) "
      "(c : cache) (hs : hstate) (now dt : N) (sched : list N) (hs' : hstate) (now' : N), "
      "Inv vary_tuple cf c -> Forall (fun e => no_ims ims_on prime (snd e)) reqs -> "
      "forall (s : N) (r0 : request) (rp : reply), In (s, r0, rp) (" + _RUN + ") -> "
-     "In (s, r0) reqs /\\ stream_wire checked error_page pkg alt sanitize encode hversion (s, r0, rp) = "
+     "In (s, r0) reqs /\\ stream_wire checked error_page vary_rules pkg alt sanitize encode hversion (s, r0, rp) = "
      "(s, answer hstate compute true ims_on parse_ims sanitize_ok prime negotiate vary_tuple vary_header "
-     "checked error_page pkg alt sanitize encode hversion H2 true ([], hs') now' r0)"),
+     "checked error_page vary_rules pkg alt sanitize encode hversion H2 true ([], hs') now' r0)"),
     ("streams_answered_exactly_once",
      _LAYER + "(ims_on : bool) (parse_ims : bytes -> option Z) (sanitize_ok : request -> bool) (prime : request -> request) "
      "(negotiate : request -> fat -> option (N * bytes)) (vary_tuple : request -> tuple) "
@@ -73,13 +77,14 @@ THEOREMS = [
      "NoDup (map (fun o => fst (fst o)) (" + _RUN + ")) /\\ "
      "forall (s : N) (r0 : request), In (s, r0) reqs -> exists rp, In (s, r0, rp) (" + _RUN + ")"),
     ("send_never_panics",
-     "forall (checked : bool) (error_page : N -> resp) (pkg : N -> headers -> headers) (p : proto) (secure : bool) "
+     _SEND + " (p : proto) (secure : bool) "
      "(alt : option bytes) (m : N) (path_ok : bool) (hdr : option bytes) (r : resp), "
-     "N.of_nat (length (rs_body r)) <= u64_max -> send checked error_page pkg p secure alt m (sd_of path_ok hdr) r <> Panic"),
+     "N.of_nat (length (rs_body r)) <= u64_max -> send checked error_page vn pkg p secure alt m (sd_of path_ok hdr) r <> Panic"),
     ("history_parity",
      _LAYER + "(cache_on ims_on : bool) (parse_ims : bytes -> option Z) (sanitize_ok : request -> bool) (prime : request -> request) "
      "(negotiate : request -> fat -> option (N * bytes)) (vary_tuple : request -> tuple) "
      "(vary_header : request -> fat -> list (bytes * bytes)) (checked : bool) (error_page : N -> resp) "
+     "(vary_rules : request -> list bytes) "
      "(pkg : N -> headers -> headers) (alt : option bytes) (sanitize : request -> outcome (option (N * N))) "
      "(encode : request -> N -> headers -> bytes -> headers * bytes) (hversion : N) (wants : state hstate -> request -> option N), "
      "pkg_oblivious pkg -> forall (secure1 : bool) (st : state hstate) (now dt : N) (bs : list breq), "
@@ -90,12 +95,24 @@ THEOREMS = [
      "map onorm (answers " + _ANSWER_ARGS + " H1 secure1 st now dt bs) = map onorm (answers " + _ANSWER_ARGS + " H2 true st now dt bs)"),
     ("pair_history_answered",
      "forall (checked : bool) (ops : list pkg_op) (alt : option bytes) (e416 : resp), "
-     "Forall (fun o => hop (pkg_op_name o) = false) ops -> forall (secure1 : bool) (exs : list exch), "
+     "Forall (fun o => hop (pkg_op_name o) = false) ops -> forall (secure1 : bool) (exs tail : list exch), "
      "Forall (fun e => (pr_no_request_body (ex_method e) = true -> ex_blen e = 0) /\\ N.of_nat (length (rs_body (ex_l4 e))) <= u64_max /\\ "
-     "fut_framed (ex_l4 e) (ex_fut e)) exs -> "
-     "forallb is_resp (pair_hist checked ops alt e416 H1 true secure1 exs) = true /\\ "
-     "forallb is_resp (pair_hist checked ops alt e416 H2 true true exs) = true /\\ "
-     "map (option_map onorm) (pair_hist checked ops alt e416 H1 true secure1 exs) = "
+     "fut_framed (head_only (ex_l4 e)) (ex_fut e) /\\ "
+     "(ex_fut e <> None -> (ex_method e =? M_HEAD) && (rs_status (ex_l4 e) =? 101) = false)) (exs ++ tail) -> "
+     "Forall (fun e => negb (ex_limited e) && close_delimited (ex_l4 e) (ex_fut e) = false) exs -> (length tail <= 1)%nat -> "
+     "forallb is_resp (pair_hist checked ops alt e416 H1 true secure1 (exs ++ tail)) = true /\\ "
+     "forallb is_resp (pair_hist checked ops alt e416 H2 true true (exs ++ tail)) = true /\\ "
+     "map (option_map onorm) (pair_hist checked ops alt e416 H1 true secure1 (exs ++ tail)) = "
+     "map (option_map onorm) (pair_hist checked ops alt e416 H2 true true (exs ++ tail))"),
+    ("close_delimited_not_last_refuted",
+     "exists checked ops alt e416 exs, Forall ex_ok exs /\\ "
+     "map is_resp (pair_hist checked ops alt e416 H1 true true exs) = [true; false] /\\ "
+     "map is_resp (pair_hist checked ops alt e416 H2 true true exs) = [true; true] /\\ "
+     "map (send_ex checked ops alt e416 H1 true) exs = "
+     "[Ok (WClosed (mkResp V11 200 [(B \"content-type\", B \"text/plain\"); (B \"connection\", B \"close\")] (B \"first second\"))); "
+     "Ok (WResp (mkResp V11 200 [(B \"content-type\", B \"text/plain\"); (B \"content-length\", B \"0\"); "
+     "(B \"connection\", B \"keep-alive\")] []))] /\\ "
+     "map (option_map onorm) (map (fun e => Some (send_ex checked ops alt e416 H1 true e)) exs) = "
      "map (option_map onorm) (pair_hist checked ops alt e416 H2 true true exs)"),
     ("unread_request_body_v0_refuted",
      "exists checked ops alt e416 exs, Forall (fun e => pr_no_request_body (ex_method e) = true -> ex_blen e = 0) exs /\\ "
@@ -108,36 +125,39 @@ THEOREMS = [
     ("pkg_menu_keeps_content_length",
      "forall ops : list pkg_op, Forall (fun o => hop (pkg_op_name o) = false) ops -> pkg_keeps_length (pkg_menu ops)"),
     ("send_is_pipe_send",
-     "forall (checked : bool) (error_page : N -> resp) (pkg : N -> headers -> headers) (head_future : bool) (p : proto) (secure : bool) "
+     _SEND + " (head_future : bool) (p : proto) (secure : bool) "
      "(alt : option bytes) (m : N) (sd : outcome (option (N * N))) (r : resp), pkg_keeps_length pkg -> "
-     "send_pipe checked error_page pkg head_future p secure alt m sd r None = send checked error_page pkg p secure alt m sd r"),
+     "send_pipe checked error_page vn pkg head_future p secure alt m sd r None = send checked error_page vn pkg p secure alt m sd r"),
     ("streamed_answer",
-     "forall (checked : bool) (error_page : N -> resp) (pkg : N -> headers -> headers) (p : proto) (secure : bool) (alt : option bytes) "
+     _SEND + " (p : proto) (secure : bool) (alt : option bytes) "
      "(m : N) (sd : outcome (option (N * N))) (r : resp) (cs : list bytes) (ol : option N), "
-     "pkg_keeps_length pkg -> fut_framed r (Some (cs, ol)) -> "
-     "exists (v : N) (h : headers), send_pipe checked error_page pkg false p secure alt m sd r (Some (cs, ol)) "
-     "= Ok (WResp (mkResp v (rs_status r) h (if m =? M_HEAD then [] else rs_body r ++ concat cs))) "
+     "pkg_keeps_length pkg -> fut_framed (head_only r) (Some (cs, ol)) -> "
+     "exists (v : N) (h : headers), send_pipe checked error_page vn pkg false p secure alt m sd r (Some (cs, ol)) "
+     "= (if (m =? M_HEAD) && (rs_status r =? 101) && negb (N.of_nat (length (concat cs)) =? 0) then Ok WBroken else "
+     "Ok ((if match p with H1 => close_delimited r (Some (cs, ol)) | H2 => false end then WClosed else WResp) "
+     "(mkResp v (rs_status r) h (if m =? M_HEAD then [] else rs_body (head_only r) ++ concat cs)))) "
      "/\\ v = ensure_version p (rs_version r) "
      "/\\ strip h = strip (pkg v (match ol with Some n => ensure_length p n (rs_headers (add_alt_svc secure alt r)) "
      "| None => rs_headers (add_alt_svc secure alt r) end))"),
     ("stream_parity",
-     "forall (checked : bool) (error_page : N -> resp) (pkg : N -> headers -> headers) (secure1 : bool) (alt : option bytes) (m : N) "
+     _SEND + " (secure1 : bool) (alt : option bytes) (m : N) "
      "(sd : outcome (option (N * N))) (r : resp) (f : option (list bytes * option N)), "
-     "pkg_oblivious pkg -> pkg_keeps_length pkg -> fut_framed r f -> "
-     "onorm (send_pipe checked error_page pkg false H1 secure1 alt m sd r f) = onorm (send_pipe checked error_page pkg false H2 true alt m sd r f)"),
+     "pkg_oblivious pkg -> pkg_keeps_length pkg -> fut_framed (head_only r) f -> "
+     "onorm (send_pipe checked error_page vn pkg false H1 secure1 alt m sd r f) = "
+     "onorm (send_pipe checked error_page vn pkg false H2 true alt m sd r f)"),
     ("head_stream_v0_refuted",
      "exists (r : resp) (cs : list bytes) (n : N), fut_framed r (Some (cs, Some n)) /\\ "
-     "send_pipe false (fun _ => r) (fun _ h => h) true H1 true None M_HEAD (Ok None) r (Some (cs, Some n)) = Ok WBroken /\\ "
-     "send_pipe false (fun _ => r) (fun _ h => h) true H2 true None M_HEAD (Ok None) r (Some (cs, Some n)) = Ok WBroken /\\ "
-     "(exists w1 w2, send_pipe false (fun _ => r) (fun _ h => h) false H1 true None M_HEAD (Ok None) r (Some (cs, Some n)) = Ok (WResp w1) /\\ "
-     "send_pipe false (fun _ => r) (fun _ h => h) false H2 true None M_HEAD (Ok None) r (Some (cs, Some n)) = Ok (WResp w2) /\\ "
+     + _WIT + " true H1 true None M_HEAD (Ok None) r (Some (cs, Some n)) = Ok WBroken /\\ "
+     + _WIT + " true H2 true None M_HEAD (Ok None) r (Some (cs, Some n)) = Ok WBroken /\\ "
+     "(exists w1 w2, " + _WIT + " false H1 true None M_HEAD (Ok None) r (Some (cs, Some n)) = Ok (WResp w1) /\\ "
+     + _WIT + " false H2 true None M_HEAD (Ok None) r (Some (cs, Some n)) = Ok (WResp w2) /\\ "
      "rs_body w1 = [] /\\ rs_body w2 = [])"),
     ("head_end_of_stream_refuted",
      "exists (v st : N) (h : headers) (cs : list bytes), concat cs <> [] /\\ "
-     "receive H1 M_GET (pipe_send H1 true v st (ensure_length H1 (N.of_nat (length (concat cs))) h) None cs) "
-     "= WResp (mkResp v st (h1_connection (ensure_length H1 (N.of_nat (length (concat cs))) h)) (concat cs)) /\\ "
-     "receive H2 M_GET (pipe_send H2 true v st h None cs) = WResp (mkResp v st (h2_strip h) []) /\\ "
-     "receive H2 M_GET (pipe_send H2 false v st h None cs) = WResp (mkResp v st (h2_strip h) (concat cs))"),
+     "receive H1 M_GET false (pipe_send H1 true v st (ensure_length H1 (N.of_nat (length (concat cs))) h) None cs) "
+     "= WResp (mkResp v st (h1_connection st (ensure_length H1 (N.of_nat (length (concat cs))) h)) (concat cs)) /\\ "
+     "receive H2 M_GET false (pipe_send H2 true v st h None cs) = WResp (mkResp v st (h2_strip h) []) /\\ "
+     "receive H2 M_GET false (pipe_send H2 false v st h None cs) = WResp (mkResp v st (h2_strip h) (concat cs))"),
     ("limiter_answer_parity",
      "forall (m : N) (r : resp), onorm (send_direct H1 m r) = onorm (send_direct H2 m r) /\\ "
      "forall p : proto, exists h : headers, send_direct p m r = "
@@ -147,11 +167,14 @@ THEOREMS = [
      "forall h : headers, h2_refuses (h2_strip h) = false /\\ strip (h2_strip h) = strip h"),
     ("read_to_bytes_parity",
      "forall (body early conn : bytes) (frames : list bytes) (max_len : N), early ++ conn = body -> concat frames = body -> "
-     "fst (h1_read_to_bytes (mkH1B early conn (N.of_nat (length body))) max_len) = firstn (N.to_nat max_len) body /\\ "
+     "fst (h1_read_to_bytes (mkH1B early conn (N.of_nat (length body)) 0) max_len) = firstn (N.to_nat max_len) body /\\ "
      "fst (h2_read_to_bytes frames max_len) = firstn (N.to_nat max_len) body"),
+    ("read_to_bytes_resumes",
+     "forall (early conn : bytes) (cl off max_len : N), cl - off = N.of_nat (length (skipn (N.to_nat off) early ++ conn)) -> "
+     "fst (h1_read_to_bytes (mkH1B early conn cl off) max_len) = firstn (N.to_nat max_len) (skipn (N.to_nat off) early ++ conn)"),
     ("second_read_refuted",
      "exists (body early conn : bytes) (frames : list bytes) (l1 l2 : N), early ++ conn = body /\\ concat frames = body /\\ "
-     "h1_reads (mkH1B early conn (N.of_nat (length body))) [l1; l2] <> h2_reads frames [l1; l2]"),
+     "h1_reads (mkH1B early conn (N.of_nat (length body)) 0) [l1; l2] <> h2_reads frames [l1; l2]"),
     ("stream_body_framed",
      "forall (file : bytes) (a c : N), "
      "match stream_plan true file (Some (a, c)) with Some (b, n) => n = N.of_nat (length b) | None => True end /\\ "
@@ -159,6 +182,25 @@ THEOREMS = [
     ("stream_body_v0_refuted",
      "exists (file : bytes) (a c : N), a < c /\\ "
      "match stream_plan false file (Some (a, c)) with Some (b, n) => n <> N.of_nat (length b) | None => False end"),
+    ("stream_body_as_in_memory",
+     "forall (checked : bool) (file : bytes) (a c : N), a < c -> "
+     "match apply_range checked (Some (a, c)) 200 file with "
+     "| Ok g => stream_plan true file (Some (a, c)) = Some (r_body g, N.of_nat (length (r_body g))) /\\ "
+     "stream_head true file (Some (a, c)) = Some (r_status g, r_content_range g) "
+     "| Err _ => stream_plan true file (Some (a, c)) = None /\\ stream_head true file (Some (a, c)) = None "
+     "| Panic => False end"),
+    ("range_not_satisfiable_page",
+     "forall (checked : bool) (error_page : N -> resp) (vn : list bytes) (a c : N) (r : resp), "
+     "(rs_status r =? 304) = false -> N.of_nat (length (rs_body r)) <= a -> "
+     "apply_sd checked error_page vn (Ok (Some (a, c))) r = Ok (vary_from_settings vn (error_page 416)) /\\ "
+     "(rs_body (error_page 416) <> [] -> "
+     "assoc H_VARY (rs_headers (vary_from_settings vn (error_page 416))) = Some (vary_value vn) /\\ "
+     "rs_body (vary_from_settings vn (error_page 416)) = rs_body (error_page 416))"),
+    ("bodiless_status_answer",
+     _SEND + " (p : proto) (secure : bool) (alt : option bytes) (m : N) (path_ok : bool) (r w : resp), "
+     "ends_with_head (rs_status r) = true -> "
+     "send checked error_page vn pkg p secure alt m (sd_of path_ok None) r = Ok (WResp w) -> "
+     "rs_body w = [] /\\ rs_status w = rs_status r"),
 ]
 
 RULE = ("Real kvarn::handle_connection on loopback TCP pairs, TLS by a rustls ServerConfig from HostCollection::make_config (ALPN from "
@@ -406,8 +448,19 @@ STREAMS = [
     ST(b"/st5", b"", CHUNKS, _tot(b"", CHUNKS), [(b"content-type", b"text/plain"), (b"keep-alive", b"timeout=5")], delay=4),
     ST(b"/st0", b"", [], 0, [(b"x-h", b"st0")]),
     ST(b"/st404", b"", [b"streamed not found page"], 23, [(b"content-type", b"text/plain")], status=404),
+    # with_future and NO content-length: a body of unknown length.  HTTP/2 ends the stream; HTTP/1 (repair 7334433) says
+    # connection: close and ends the connection - the LAST request of a history only (see closing_request)
+    ST(b"/st6", b"head of the body, ", CHUNKS, None, [(b"content-type", b"text/plain"), (b"x-h", b"st6")]),
 ]
 STREAM_PATHS = [t[0] for t in STREAMS]
+CLOSING = (b"/st6",)
+# vary rules of the host (name, transformation id of the harness, default): the 416 page that replaces a response
+# advertises them (repair 21f0154)
+VARY_RULES = {b"/m": [(b"x-custom", 2, b"d"), (b"accept-language", 3, b"k")]}
+
+
+def vary_names(target):
+    return [n for n, _, _ in VARY_RULES.get(target.split(b"?")[0], [])]
 SFILE = bytes((i * 7 + 3) % 256 for i in range(100000))
 STEXT = b"hello stream body\n" * 10
 SFILES = [("public/sf/a.bin", SFILE), ("public/sf/t.txt", STEXT), ("public/sf/e.txt", b"")]
@@ -468,7 +521,10 @@ def host_cfg(cache, pkg, with_files=True, slow=(), ctlen=True, hops=HOPS_DIRECTE
           H(b"/empty", b"", headers=[(b"x-h", b"e")], spref=2),
           H(b"/short", b"tiny", headers=[(b"content-type", b"text/plain")], spref=2, compress=True),
           H(b"/nf", b"custom not found page " * 4, status=404, headers=[(b"content-type", b"text/plain")], spref=2, compress=True),
-          H(b"/ise", b"boom", status=500, headers=[(b"content-type", b"text/plain")], spref=0)]
+          H(b"/ise", b"boom", status=500, headers=[(b"content-type", b"text/plain")], spref=0),
+          # a 204 on which the handler left a body (and, /nc2, a transfer-encoding): no body after the head (repair 89e2956)
+          H(b"/nc", b"left over body of a 204", status=204, headers=[(b"x-h", b"nc")], spref=0),
+          H(b"/nc2", b"another left over body", status=204, headers=[(b"x-h", b"nc2"), (b"transfer-encoding", b"identity")], spref=2)]
     if ctlen:
         # a handler that states its own content-length (the length before compression / range)
         hs.append(H(b"/cl", TEXT[:200], headers=[(b"content-type", b"text/plain"), (b"content-length", b"200")], spref=2, compress=True))
@@ -486,7 +542,8 @@ def host_cfg(cache, pkg, with_files=True, slow=(), ctlen=True, hops=HOPS_DIRECTE
     kvs = [xl(xb("cache"), xbool(cache)), xl(xb("handlers"), xlist(hs)),
            xl(xb("pkg"), xlist([xl(xz(p), xn(k), xb(n), xb(v)) for p, k, n, v in pkg])),
            xl(xb("echo"), xlist([xb(b"/echo")])),
-           xl(xb("echon"), xlist([xl(xb(p), xn(n)) for p, n in sorted(ECHON.items())]))]
+           xl(xb("echon"), xlist([xl(xb(p), xn(n)) for p, n in sorted(ECHON.items())])),
+           xl(xb("vary"), xlist([xl(xb(pa), xlist([xl(xb(n), xn(t), xb(d)) for n, t, d in rules])) for pa, rules in sorted(VARY_RULES.items())]))]
     if streams:
         kvs.append(xl(xb("stream"), xlist([xl(xb(pa), xb(bo), xlist([xb(c) for c in ch]), xlist([xn(ln)] if ln is not None else []),
                                               xlist([xl(xb(a), xb(b)) for a, b in hd]), xn(st), xn(dl))
@@ -570,7 +627,7 @@ def exchanges(reqs, pr, limit=None):
         # run when sanitize_request refuses the request (416 / 400: layer 4 answers the error page)
         want = READS.get(t.split(b"?")[0]) if l4[1][1] == ("N", 200) and sd == 0 and not limited else None
         exs.append(xl(xb(m), xopt(None if rg is None else xb(rg)), xbool(sd != 1), l4, xn(len(b)), xopt(None if want is None else xn(want)),
-                      xl(xbool(limited), xopt(fut))))
+                      xl(xbool(limited), xopt(fut), xlist([xb(n) for n in vary_names(t)]))))
     e416 = EMPTY_RESP if pr is None else xl(*pr[0][1][:4])
     return e416, xlist(exs)
 
@@ -579,7 +636,7 @@ def exchanges(reqs, pr, limit=None):
 # requests
 # ----------------------------------------------------------------------------------------------
 AES = [None, b"gzip", b"br", b"identity", b"gzip, br;q=0.5", b"gzip;q=0", b"*;q=0, identity;q=0", b"zstd"]
-PATHS = [b"/hs0", b"/hs1", b"/hs2", b"/st1", b"/st2", b"/st3", b"/st4", b"/st5", b"/st0", b"/st404", b"/sf/a.bin", b"/sf/t.txt", b"/sf/e.txt",
+PATHS = [b"/nc", b"/nc2", b"/m", b"/hs0", b"/hs1", b"/hs2", b"/st1", b"/st2", b"/st3", b"/st4", b"/st5", b"/st0", b"/st404", b"/sf/a.bin", b"/sf/t.txt", b"/sf/e.txt",
          b"/sf/missing.txt", b"/ka", b"/up", b"/te", b"/p", b"/p", b"/n", b"/q", b"/q?x=1", b"/q?x=2", b"/m", b"/empty", b"/short", b"/nf", b"/ise", b"/cl", b"/f.txt", b"/f.txt",
          b"/b.bin", b"/index.html", b"/e.txt", b"/missing", b"/missing.html", b"/./x", b"/p?a=b", b"/dir/../f.txt", b"/f%2Etxt", b"/"]
 
@@ -649,6 +706,28 @@ def rand_request(rng, focus=None):
         hs.append((b"content-length", b"%d" % len(body)))
         hs += late(rng, t)
     return R(m, t, hs, body)
+
+
+def closing_request(rng):
+    """a request whose HTTP/1 answer ends the connection (a streamed body of unknown length): last of its history"""
+    t = rng.choice(CLOSING)
+    m = rng.choice([b"GET", b"GET", b"GET", b"HEAD", b"POST", b"PUT"])
+    hs = []
+    if rng.random() < 0.4:
+        hs.append((b"accept-encoding", rng.choice([b"gzip", b"br", b"identity", b"gzip;q=0"])))
+    if rng.random() < 0.3:
+        hs.append((b"range", range_values(rng)))
+    body = b""
+    if m in BODY_METHODS and rng.random() < 0.7:
+        body = rand_body(rng, rng.choice([1, 700, 5000, 20000, 70000]))
+        hs.append((b"content-length", b"%d" % len(body)))
+        if rng.random() < 0.3:
+            hs.append((LATE, b"%d" % rng.choice([1, 5, 20])))
+    return R(m, t, hs, body)
+
+
+def maybe_closing(rng, h, p=0.3):
+    return h + [closing_request(rng)] if rng.random() < p else h
 
 
 def history(rng):
@@ -736,6 +815,20 @@ DIRECTED_HISTORIES = [
                                                     R(b"GET", b"/hs3", [(b"range", b"bytes=3-8")]), R(b"GET", b"/p")],
     # empty bodies
     [R(b"GET", b"/empty"), R(b"HEAD", b"/empty"), R(b"GET", b"/e.txt"), R(b"GET", b"/empty", [(b"range", b"bytes=0-0")]), R(b"GET", b"/short", [(b"accept-encoding", b"gzip")])],
+    # the repairs made for other properties, seen through both protocols: a 204 with a left-over body (89e2956; with a
+    # transfer-encoding: 3c296af), GET / HEAD / ranged (the emptied body makes every Range unsatisfiable), the 416 page of a
+    # path with vary rules and of one without (21f0154), If-Modified-Since + Range on a cached page (304, not 416: 9ae9b1a)
+    [R(b"GET", b"/nc"), R(b"HEAD", b"/nc"), R(b"GET", b"/nc2"), R(b"GET", b"/nc2", [(b"accept-encoding", b"gzip")]), R(b"GET", b"/nc", [(b"range", b"bytes=0-3")]),
+     R(b"POST", b"/nc", [(b"content-length", b"3")], b"abc"), R(b"GET", b"/m"), R(b"GET", b"/m", [(b"range", b"bytes=50-60")]),
+     R(b"GET", b"/m", [(b"range", b"bytes=50-60"), (b"x-custom", b"vv")]), R(b"HEAD", b"/m", [(b"range", b"bytes=11-")]),
+     R(b"GET", b"/p"), R(b"GET", b"/p", [(b"if-modified-since", b"@T+100"), (b"range", b"bytes=0-3")]),
+     R(b"GET", b"/p", [(b"if-modified-since", b"@T+100"), (b"range", b"bytes=900-")]), R(b"GET", b"/p", [(b"range", b"bytes=900-")])],
+    # a streamed body of UNKNOWN length (with_future, no content-length): HTTP/2 ends the stream, HTTP/1 ends the connection
+    # (7334433) - as the last request of a history: GET / HEAD / with an unread request body / ranged
+    [R(b"GET", b"/st1"), R(b"GET", b"/p"), R(b"GET", b"/st6")],
+    [R(b"GET", b"/p"), R(b"HEAD", b"/st2"), R(b"HEAD", b"/st6")],
+    [R(b"POST", b"/echo", [(b"content-length", b"4")], b"body"), R(b"POST", b"/st6", [(b"content-length", b"5000")], b"c" * 5000)],
+    [R(b"GET", b"/st6", [(b"range", b"bytes=2-5"), (b"accept-encoding", b"gzip")])],
 ]
 
 
@@ -752,7 +845,8 @@ def gen_pairs(rng, n_random, kind="pair", n_limited=2, big=(1,)):
         for cache in (True, False):
             plans.append((cache, PKG_MENUS[(i + cache) % len(PKG_MENUS)], h, (i + cache) % 3 != 0, kind + "-directed", {}, None))
     for _ in range(n_random):
-        plans.append((rng.random() < 0.7, rng.choice(PKG_MENUS), history(rng), rng.random() < 0.7, kind, {"hops": rand_hops(rng)}, None))
+        plans.append((rng.random() < 0.7, rng.choice(PKG_MENUS), maybe_closing(rng, history(rng)), rng.random() < 0.7, kind,
+                      {"hops": rand_hops(rng)}, None))
     # the host's request limiter: the first `limit` requests pass, the rest of the history (and the framing sentinel) is
     # answered 429 by handle_connection itself, on both protocols
     for j in range(n_limited):
@@ -832,7 +926,7 @@ def gen_servers(rng, n):
     """a sample of the histories through complete servers: RunConfig::execute on loopback ports (listener, accept loop, ALPN)"""
     plans = []
     for i in range(n):
-        h = DIRECTED_HISTORIES[i % len(DIRECTED_HISTORIES)] if i < 4 else history(rng)
+        h = DIRECTED_HISTORIES[i % len(DIRECTED_HISTORIES)] if i < 4 else maybe_closing(rng, history(rng), 0.5)
         plans.append((i % 2 == 0, PKG_MENUS[i % len(PKG_MENUS)], h, i % 3 != 1))
     jobs = [(host_cfg(c, pkg), h, 0) for c, pkg, h, _ in plans]
     prs = probe(jobs)
@@ -881,7 +975,8 @@ def burst_plan(rng, n, p_cancel=0.12):
                 # the client resets this stream while (or before, or after) its handler sleeps: RST_STREAM(CANCEL)
                 hs.append((CANCEL, b"%d" % rng.choice([0, 1, 5, 30, 90, 150])))
         elif u < 0.8:
-            t = rng.choice([b"/p", b"/f.txt", b"/b.bin", b"/missing", b"/q?s=%d" % s, b"/n", b"/cl", b"/st1", b"/st3", b"/st4", b"/sf/t.txt", b"/hs0", b"/hs4"])
+            t = rng.choice([b"/p", b"/f.txt", b"/b.bin", b"/missing", b"/q?s=%d" % s, b"/n", b"/cl", b"/st1", b"/st3", b"/st4", b"/sf/t.txt", b"/hs0", b"/hs4",
+                            b"/st6", b"/nc"])
             m = rng.choice([b"GET", b"GET", b"HEAD"])
             if rng.random() < 0.5:
                 hs.append((b"accept-encoding", rng.choice([b"gzip", b"br"])))
@@ -920,7 +1015,7 @@ def burst_cases(cfg, pkg, cache, slow, reqs, pr, kind, with_h1, two=False):
         elif path == b"/q":
             cacheable, cls = cache, t
         else:
-            cacheable, cls = (cache and path not in (b"/n", b"/echo") and path not in ECHON and path not in STREAM_PATHS
+            cacheable, cls = (cache and path not in (b"/n", b"/echo", b"/nc") and path not in ECHON and path not in STREAM_PATHS
                               and not path.startswith(b"/sf/") and path not in (b"/hs0", b"/hs4")), path
         cacheable = cacheable and m in (b"GET", b"HEAD")
         cancel = d.get(CANCEL)
@@ -1045,7 +1140,7 @@ def compare(c, i, m):
 
 
 def wire(w):
-    """(L (N 0) (L (N 0) (L version status headers body))) -> dict | 'refused' | None"""
+    """(L (N 0) (L (N 0) (L version status headers body))) -> dict | 'refused' | None; (N 5): the HTTP/1 connection ended with it"""
     try:
         assert w[1][0] == ("N", 0)
         inner = w[1][1]
@@ -1053,8 +1148,10 @@ def wire(w):
             return "refused"
         if inner[1][0] == ("N", 4):
             return "broken"
+        assert inner[1][0] in (("N", 0), ("N", 5))
         v, st, hs, b = inner[1][1][1]
-        return {"version": v[1], "status": st[1], "headers": sorted((h[1][0][1], h[1][1][1]) for h in hs[1]), "body": b[1]}
+        return {"version": v[1], "status": st[1], "headers": sorted((h[1][0][1], h[1][1][1]) for h in hs[1]), "body": b[1],
+                "closed": inner[1][0] == ("N", 5)}
     except Exception:
         return None
 
@@ -1141,6 +1238,7 @@ def sbody_oracle(c, i):
     if not v[1]:
         return None if rg and rg[0][0] >= len(f) else "416 for a satisfiable Range %r on a %d-byte file" % (rg, len(f))
     written, ln = v[1][0][1][0][1], v[1][0][1][1][1]
+    status, cr = v[1][0][1][2][1], [x[1] for x in v[1][0][1][3][1]]
     a, e = rg[0] if rg else (0, len(f))
     if a >= len(f) and rg:
         return "a Range that starts at or after the end of the %d-byte file was answered with a stream" % len(f)
@@ -1148,6 +1246,11 @@ def sbody_oracle(c, i):
         return "stream_body announced %d bytes and wrote %d (file of %d bytes, Range %r)" % (ln, len(written), len(f), rg)
     if written != f[a:min(e, len(f))]:
         return "stream_body wrote other bytes than [%d, %d) of the file" % (a, min(e, len(f)))
+    # a Range is answered 206 with content-range: bytes first-last/length (RFC 9110 14.4, 15.3.7); no Range: 200 without
+    want = (206, [b"bytes %d-%d/%d" % (a, min(e, len(f)) - 1, len(f))]) if rg else (200, [])
+    if (status, cr) != want:
+        return "stream_body answered the Range %r of a %d-byte file with status %d, content-range %r (expected %d, %r)" % (
+            rg, len(f), status, cr, want[0], want[1])
     return None
 
 
@@ -1174,8 +1277,17 @@ def extra_oracle(c, i):
             if m == b"HEAD" and (w1["body"] or w2["body"]):
                 return "request %d: a HEAD answer has a body" % k
             cl = [v for n, v in w1["headers"] if n == b"content-length"]
-            if m != b"HEAD" and cl != [b"%d" % len(w1["body"])]:
+            # (a body that ends with the connection needs no length; the harness has seen the connection end)
+            delimited_by_close = w1["closed"] and not cl and (b"connection", b"close") in w1["headers"]
+            if m != b"HEAD" and cl != [b"%d" % len(w1["body"])] and not delimited_by_close:
                 return "request %d: HTTP/1.1 content-length %r for %d body bytes" % (k, cl, len(w1["body"]))
+            if w1["closed"] and k != len(iv[1]) - 1:
+                return "request %d: the HTTP/1.1 connection ended before the end of the history" % k
+            if w1["status"] in (204, 304) or 100 <= w1["status"] < 200:
+                if w1["body"] or w2["body"]:
+                    return "request %d: a %d answer has a body" % (k, w1["status"])
+            if any(n == b"transfer-encoding" for n, _ in w1["headers"]) and cl:
+                return "request %d: HTTP/1.1 answer with content-length and transfer-encoding" % k
             cl2 = [v for n, v in w2["headers"] if n == b"content-length"]
             if m != b"HEAD" and cl2 and cl2 != [b"%d" % len(w2["body"])]:
                 return "request %d: HTTP/2 content-length %r for %d body bytes" % (k, cl2, len(w2["body"]))
@@ -1237,5 +1349,7 @@ def extra_coverage(cases, impl, model, spec):
             "bursts_over_two_connections": len([c for c in cases if c.comp == "proto.burst2"]),
             "streamed_exchanges_through_both_protocols": sum(1 for c in pairs for e in c.x[1][5][1] if len(e[1]) > 6 and e[1][6][1][1][1]),
             "limiter_answered_exchanges": sum(1 for c in pairs for e in c.x[1][5][1] if len(e[1]) > 6 and e[1][6][1][0] == ("N", 1)),
+            "answers_that_end_the_http1_connection": sum((impl.get(c.id) or "").count("(L (N 5) (L (N 1") for c in cases),
+            "exchanges_on_paths_with_vary_rules": sum(1 for c in pairs for e in c.x[1][5][1] if len(e[1]) > 6 and len(e[1][6][1]) > 2 and e[1][6][1][2][1]),
             "request_body_reads_(proto.body)": len([c for c in cases if c.comp == "proto.body"]),
             "layer4_probes": _STATS["probes"], "layer4_probe_failures": _STATS["probe_failures"]}
